@@ -4,6 +4,7 @@ import c11lib as L
 NAME = "shakashaka"
 MODULE = "cspuz.puzzle.shakashaka"
 FUNC = "solve_shakashaka"
+TIER1 = ("Shakashaka", "solve_shakashaka_model")
 
 
 def call(mod, pb):
@@ -43,3 +44,37 @@ def tier2(tier, rng):
             yield {"h": h, "w": w, "grid": g}
     for g in L.sample(rng, L.all_grids(2, 2, VALUES), 40 if th else 5):
         yield {"h": 2, "w": 2, "grid": g}
+
+
+def tier1_problems(tier, rng):
+    """program-capture tie: every clue layout of the boards with <= 3 cells over {white, black, 0..4, 5, 7}, every layout
+    over {white, black, 0..4} of the 2x2 board (a sample in the quick tier), samples of all layouts of the boards with 4 to 6
+    cells (both orientations), random layouts on larger and non-square boards (1xN, Nx1, up to 8x8; mostly white, half
+    white, mostly clues; numbers beyond 4), all-white and all-black boards, boards without cells, and grids whose last
+    row is missing or short (IndexError in the clue loop).  The alphabet is the plug-in's: -2 (None) white, -1 black,
+    n >= 0 numbered black; other negative values are not part of it."""
+    th = tier == "thorough"
+    wide = VALUES + [5, 7]
+    for (h, w) in [(1, 1), (1, 2), (2, 1)]:
+        for g in L.all_grids(h, w, wide):
+            yield {"h": h, "w": w, "grid": g}
+    for (h, w) in [(1, 3), (3, 1)]:
+        for g in L.sample(rng, L.all_grids(h, w, wide), 729 if th else 120):
+            yield {"h": h, "w": w, "grid": g}
+    for g in L.sample(rng, L.all_grids(2, 2, VALUES), 2401 if th else 150):
+        yield {"h": 2, "w": 2, "grid": g}
+    for (h, w) in [(1, 4), (4, 1), (1, 5), (5, 1), (2, 3), (3, 2), (1, 6), (6, 1)]:
+        for _ in range(80 if th else 12):
+            yield {"h": h, "w": w, "grid": L.random_grid(rng, h, w, wide, rng.choice([0.2, 0.5, 0.8]))}
+    for (h, w) in [(3, 3), (2, 5), (5, 2), (4, 4), (3, 6), (6, 3), (6, 5), (5, 7), (1, 7), (7, 1), (1, 9), (7, 7), (8, 8)]:
+        for p in [0.4, 0.7, 0.9] * (3 if th else 1):
+            yield {"h": h, "w": w, "grid": L.random_grid(rng, h, w, wide, p)}
+        yield {"h": h, "w": w, "grid": [[-2] * w for _ in range(h)]}
+        yield {"h": h, "w": w, "grid": [[rng.choice(wide[1:]) for _ in range(w)] for _ in range(h)]}
+    for (h, w) in [(0, 0), (0, 2), (2, 0)]:
+        yield {"h": h, "w": w, "grid": [[] for _ in range(h)]}
+    for (h, w) in [(1, 1), (2, 2), (2, 3), (3, 2), (4, 4)]:
+        g = L.random_grid(rng, h, w, VALUES, 0.5)
+        yield {"h": h, "w": w, "grid": g[:-1]}                              # the last row is missing
+        yield {"h": h, "w": w, "grid": g[:-1] + [g[-1][:-1]]}               # the last cell is missing
+        yield {"h": h, "w": w, "grid": [[-2] * w for _ in range(h - 1)] + [[]]}  # an empty last row after all-white rows
